@@ -1468,7 +1468,7 @@ func checkEOFRecognition(c *Ctx, rule string) {
 			}
 		})
 	}
-	c.check(n >= 5, rule, "EOF tests in the wrappers", "?", fmt.Sprintf("%d tests", n), fmt.Sprintf("only %d EOF tests found in the read/list wrappers", n))
+	c.check(n >= 3, rule, "EOF tests in the wrappers", "?", fmt.Sprintf("%d tests", n), fmt.Sprintf("only %d EOF tests found in the read/list wrappers", n))
 }
 
 // checkFilecmdMethodNames (C10.R8): FileCmder.Filecmd is documented for the methods Setstat, Rename, Rmdir, Mkdir, Link,
